@@ -16,6 +16,7 @@ import Driver.MtxDrv
 import Driver.CfgDrv
 import Driver.MpiDrv
 import Driver.ElasticDrv
+import Driver.CtxDrv
 /-! `driver <model>`: reads harness output (cases) on stdin, prints one verdict line per case. -/
 open Driver
 
@@ -39,6 +40,7 @@ def dispatch (model : String) (c : Case) : String :=
   | "cfg" => CfgDrv.runCase c
   | "mpi" => MpiDrv.runCase c
   | "elastic" => ElasticDrv.runCase c
+  | "ctx" => CtxDrv.runCase c
   | _ => s!"case {c.id} reject 0 unknown-model-{model}"
 
 def main (args : List String) : IO UInt32 := do
